@@ -1,5 +1,152 @@
-import HailVerif.Model.ValueEnc
+import HailVerif.Proofs.ValueEnc
 import HailVerif.Generated.PyEType
+/-!
+# C33 — Value binary encoding round-trips and matches the engine layout
+
+Subject: `HailVerif.ValueEnc.encode / decode` (`Model/ValueEnc.lean`), the byte-level model of
+`HailType._convert_to_encoding` / `_convert_from_encoding` (`_to_encoding` / `_from_encoding`) of every type class of
+`hail/python/hail/expr/types.py` over `ByteWriter` / `ByteReader`; values: `Model/Value.lean`; calls: the packing of C34
+(`Model/CallPack.lean`).  Tied to the Python code by the byte-exact correspondence check `harness/props/c33.py`, and to the
+engine by the case table of `EType.fromPythonTypeEncoding` re-extracted on every run (`Generated/PyEType.lean`).
+
+`fOrder v` is `v` with the memory-order flag of every numpy array set to column-major (what the decoder builds with
+`order="F"`); the content is untouched.
+
+NOTE: the row-major defect that DESIGN.md expected for numeric n-d arrays does not exist in this tree — the fast path
+`if self.element_type in _numeric_types` compares a type instance with a set of classes, is never taken, and the
+element-wise path (`np.nditer(order='F')`) writes column-major for every memory order.  What does fail is the encoding of
+n-d arrays with a NON-numeric element type (`ndarray_non_numeric_not_encodable`).
+-/
 namespace HailVerif.C33
-theorem placeholder : (1 : Nat) = 1 := rfl
+open HailVerif.TypeStr HailVerif.Values HailVerif.ValueEnc
+
+/-- **FULL STATEMENT** of the round-trip half of the property: every well-typed value within the size limits of the format is
+written, and read back equal from any context.  It does NOT hold for the unchanged code (`encoding_round_trips_refuted`):
+n-d arrays with a non-numeric element type cannot be written.  `decode_encode` is what does hold. -/
+def EncodingRoundTrips : Prop :=
+  ∀ t v, v ≠ .na → HasType t v → SizeOK t v →
+    ∃ bs, encode t v = some bs ∧ ∀ rest, decode t (bs ++ rest) = some (fOrder v, rest)
+
+/-- **`decode (encode v ++ rest) = (v, rest)`** for every type and every well-typed value that is not `None` at the top (missing
+values at every level below, NaN/±inf, calls, loci, intervals, sets, dicts, tuples, nested structs, n-d arrays of any rank and
+memory order), under `EncOK`: lengths fit an int32, dimensions an int64, calls are in the engine's range, and non-empty n-d
+arrays have a numeric element type.  The encoding is self-delimiting (`rest` is returned untouched), so it composes.
+(`…_partial` with respect to the full statement: the n-d arrays with non-numeric elements are excluded.) -/
+theorem decode_encode_partial (t : HType) (v : Value) (hna : v ≠ .na) (ht : HasType t v) (hok : EncOK t v) :
+    ∃ bs, encode t v = some bs ∧ ∀ rest, decode t (bs ++ rest) = some (fOrder v, rest) :=
+  codec t v hna ht hok
+
+/-- `_from_encoding(_to_encoding(v)) = v` -/
+theorem fromEncoding_toEncoding (t : HType) (v : Value) (hna : v ≠ .na) (ht : HasType t v) (hok : EncOK t v) :
+    ∃ bs, toEncoding t v = some bs ∧ fromEncoding t bs = some (fOrder v) := by
+  obtain ⟨bs, h1, h2⟩ := codec t v hna ht hok
+  refine ⟨bs, h1, ?_⟩
+  have := h2 []
+  rw [List.append_nil] at this
+  simp [fromEncoding, this]
+
+/-- the witness of the excluded class: a 0-dimensional `ndarray<str>` holding `""` is well-typed and within every size limit,
+and the encoder raises (`np.nditer` refuses object arrays) -/
+theorem ndarray_non_numeric_not_encodable :
+    HasType (.ndarray .str 0) (.nd [] [.str []] false) ∧ SizeOK (.ndarray .str 0) (.nd [] [.str []] false) ∧
+    encode (.ndarray .str 0) (.nd [] [.str []] false) = none := by
+  refine ⟨by simp [HasType, ScalarStr], by simp [SizeOK], rfl⟩
+
+theorem encoding_round_trips_refuted : ¬ EncodingRoundTrips := by
+  intro h
+  obtain ⟨h1, h2, h3⟩ := ndarray_non_numeric_not_encodable
+  obtain ⟨bs, hb, _⟩ := h _ _ (by simp) h1 h2
+  rw [h3] at hb; cases hb
+
+/-! ## n-d arrays are column-major -/
+
+/-- **The bytes do not depend on the memory order of the array**: a C-ordered and an F-ordered array with the same content are
+written identically. -/
+theorem ndarray_column_major (t : HType) (n : Nat) (shape : List Nat) (data : List Value) :
+    encode (.ndarray t n) (.nd shape data true) = encode (.ndarray t n) (.nd shape data false) := rfl
+
+/-- what is written: every dimension as an int64, then the elements in column-major order, without missing bits -/
+theorem ndarray_layout (t : HType) (n : Nat) (shape : List Nat) (data : List Value) (f : Bool) (hnum : isNumeric t = true)
+    (hne : data ≠ []) :
+    encode (.ndarray t n) (.nd shape data f) =
+      match concatOpt (shape.map fun (d : Nat) => writeInt64 d), concatOpt ((toColMajor shape data).map (encode t)) with
+      | some dims, some elems => some (dims ++ elems)
+      | _, _ => none := by
+  have : data.isEmpty = false := by cases data <;> simp_all
+  show encNd (isNumeric t) (encode t) shape data = _
+  unfold encNd
+  cases concatOpt (shape.map fun (d : Nat) => writeInt64 d) <;> simp [this, hnum]
+  cases concatOpt ((toColMajor shape data).map (encode t)) <;> simp
+
+/-- the column-major listing is the one numpy's `order="F"` reads back: `fromColMajor ∘ toColMajor = id` on arrays of the
+right size, for every shape -/
+theorem colMajor_inverse {α : Type} (shape : List Nat) (xs : List α) (h : xs.length = prod shape) :
+    fromColMajor shape (toColMajor shape xs) = xs := fromColMajor_toColMajor shape xs h
+
+/-- a 2×3 matrix listed row by row is written column by column … -/
+theorem colMajor_2x3 {α : Type} (a b c d e f : α) : toColMajor [2, 3] [a, b, c, d, e, f] = [a, d, b, e, c, f] := rfl
+
+/-- … and in a 2×3×4 array the first index varies fastest, then the second, then the third -/
+theorem colMajor_2x3x4 : toColMajor [2, 3, 4] (List.range 24) =
+    [0, 12, 4, 16, 8, 20, 1, 13, 5, 17, 9, 21, 2, 14, 6, 18, 10, 22, 3, 15, 7, 19, 11, 23] := by decide
+
+/-! ## the layout is the one `EType.fromPythonTypeEncoding` announces -/
+
+/-- **The table the model was written to is the table extracted from `EType.scala` on this run**: which `EType` constructor
+per type case and which components are required (no missing bit). -/
+theorem layout_matches_table : PyLayout.modelLayout = Generated.PyEType.table := by decide
+
+/-- array (`TIterable ↦ EArray` of nullable elements): int32 length, ⌈len/8⌉ missing-bit bytes, the present elements -/
+theorem array_layout (t : HType) (xs : List Value) :
+    encode (.array t) (.arr xs) =
+      match writeInt32 xs.length, concatOpt (xs.map fun x => naOrEmpty x (encode t)) with
+      | some l, some body => some (l ++ missingOf xs ++ body)
+      | _, _ => none := rfl
+
+/-- dict (`TDict ↦ EDictAsUnsortedArrayOfPairs` of REQUIRED entries): int32 length and the entries, no missing bits between;
+each entry is a `(key, value)` struct with its own missing-bit byte -/
+theorem dict_layout (k v : HType) (es : List (Value × Value)) :
+    encode (.dict k v) (.dict es) =
+      match writeInt32 es.length, concatOpt (es.map (encEntry (encode k) (encode v))) with
+      | some l, some body => some (l ++ body)
+      | _, _ => none := rfl
+
+/-- struct / tuple (`TBaseStruct ↦ EBaseStruct` of nullable fields): ⌈n/8⌉ missing-bit bytes, the present fields -/
+theorem struct_layout (fs : List (Str × HType)) (xs : List Value) :
+    encode (.struct fs) (.struct xs) = (encodeFields fs xs).map (missingOf xs ++ ·) := rfl
+
+/-- the missing-bit bytes: `⌈n/8⌉` of them, and bit `i mod 8` of byte `i / 8` says whether element `i` is `None` -/
+theorem missing_bits (xs : List Value) :
+    (missingOf xs).length = (xs.length + 7) / 8 ∧ ∀ i (h : i < xs.length), missingAt (missingOf xs) i = some (isNa xs[i]) :=
+  ⟨missingOf_length xs, fun i h => missingAt_missingOf xs i h⟩
+
+/-! ## Non-vacuity -/
+
+def sampleType : HType :=
+  .struct [(cp% "a", .array .float64), (cp% "d", .dict .call (.set (.locus (cp% "GRCh37")))),
+    (cp% "t", .tuple [.interval .int32, .ndarray .float32 2, .int64, .str])]
+
+def sampleValue : Value :=
+  .struct [.arr [.flt .nan, .flt .ninf, .na, .flt (.fin 1)],
+    .dict [(.call [] true, .set [.locus (cp% "X") 1, .na]), (.call [1, 2] false, .na), (.na, .set [])],
+    .tup [.interval .na (.int 2147483647) true false,
+      .nd [2, 3] [.flt (.fin 0), .flt (.fin 1065353216), .flt .nan, .flt .inf, .flt (.fin 3212836864), .flt (.fin 1073741824)] false,
+      .int (-9223372036854775808), .str [233, 20013, 128512]]]
+
+example : HasType sampleType sampleValue := by
+  simp [sampleType, sampleValue, HasType, HasTypeFields, HasTypeTuple, Flt.Valid64, Flt.Valid32, ScalarStr]
+example : EncOK sampleType sampleValue := by
+  simp [sampleType, sampleValue, EncOK, EncOKFields, EncOKTuple, isNumeric, CallPack.InRange, CallPack.gtIndex]
+-- what the theorem says about it, computed on the bytes: written, read back, and written again to the same bytes
+example : (toEncoding sampleType sampleValue).isSome = true ∧
+    ((toEncoding sampleType sampleValue).bind (fromEncoding sampleType)).bind (toEncoding sampleType) =
+      toEncoding sampleType sampleValue := by decide +kernel
+-- the bytes of a (2,3) int32 matrix 0..5: two int64 dimensions, then 0 3 1 4 2 5
+example : encode (.ndarray .int32 2) (.nd [2, 3] [.int 0, .int 1, .int 2, .int 3, .int 4, .int 5] false) =
+    some [2, 0, 0, 0, 0, 0, 0, 0, 3, 0, 0, 0, 0, 0, 0, 0,
+          0, 0, 0, 0, 3, 0, 0, 0, 1, 0, 0, 0, 4, 0, 0, 0, 2, 0, 0, 0, 5, 0, 0, 0] := by decide +kernel
+-- a struct of nine fields crosses the missing-byte boundary: two bytes, bit 0 of the second for the ninth field
+example : encode (.tuple (List.replicate 9 .bool)) (.tup [.na, .bool true, .na, .na, .na, .na, .na, .na, .na]) =
+    some [253, 1, 1] := by decide +kernel
+
 end HailVerif.C33
